@@ -12,6 +12,7 @@ import Omaha.Drv.SM
 import Omaha.Drv.Gen
 import Omaha.Drv.Mock
 import Omaha.Drv.Storage
+import Omaha.Drv.Chan
 
 open Omaha Omaha.Drv
 
@@ -34,7 +35,8 @@ def handleLine (line : String) : String :=
   -- the implementation compared with itself under storage failures: the model's answer is what
   -- `storage_failures_invisible_history` (Props/C14) proves, for every history
   | "smfault" :: _ => "same"
-  -- channel closure (not modelled): the property's two constants
+  | "ctl" :: "seq" :: script :: _ => handleChan [script]
+  -- single-shot channel closure cases: the two constants `gone_not_hanging` / `dropHandles_noop` (Props/C11Chan) give
   | "ctl" :: "gone" :: _ => "gone"
   | "ctl" :: "dropped" :: _ => "runs"
   | _ => "bad-op"
